@@ -65,11 +65,16 @@ fn tovec_scn(script: Vec<Emit<i64>>, sync_source: bool, q: Option<u32>, t: Optio
 }
 
 fn tovec_scn_x(script: Vec<Emit<i64>>, sync_source: bool, handed_over: u32, q: Option<u32>, t: Option<u32>) -> Scn {
+  tovec_scn_y(script, sync_source, handed_over, false, q, t)
+}
+
+/// `clone_dropped`: the future is cloned and the clone dropped before the original is awaited
+fn tovec_scn_y(script: Vec<Emit<i64>>, sync_source: bool, handed_over: u32, clone_dropped: bool, q: Option<u32>, t: Option<u32>) -> Scn {
   let name = format!(
     "c18/{} P({}){}",
     if sync_source { "synchronous source" } else { "source thread" },
     script.iter().map(emit_label).collect::<Vec<_>>().join(","),
-    if handed_over > 0 { format!(", polled {}x by another task first", handed_over) } else { String::new() }
+    if clone_dropped { ", a clone of the future dropped first".to_string() } else if handed_over > 0 { format!(", polled {}x by another task first", handed_over) } else { String::new() }
   );
   let mut s = scn(&name, "to_vec", q, t, move || {
     let out = Arc::new(Mutex::new(Out::default()));
@@ -101,7 +106,12 @@ fn tovec_scn_x(script: Vec<Emit<i64>>, sync_source: bool, handed_over: u32, q: O
           thread::spawn(run);
         }
       });
-      let (r, polls, ready_at) = block_on(src.to_vec(), handed_over);
+      let fut = src.to_vec();
+      if clone_dropped {
+        let c = fut.clone();
+        drop(c);
+      }
+      let (r, polls, ready_at) = block_on(fut, handed_over);
       let mut o = out2.lock().unwrap();
       o.polls = polls;
       o.ready_at = ready_at;
@@ -252,6 +262,7 @@ pub fn scenarios() -> Vec<Scn> {
     tovec_scn(vec![E(7)], false, Some(3), Some(6)),
     tovec_scn_x(vec![N(1), C], false, 1, Some(3), Some(5)),
     tovec_scn_x(vec![N(1), E(7)], false, 2, Some(2), Some(4)),
+    tovec_scn_y(vec![N(1), C], false, 0, true, Some(2), Some(4)),
     merged_scn(Some(2), Some(3)),
     piped_scn(false, true, Some(1), Some(2)),
     piped_scn(false, false, Some(1), Some(2)),
